@@ -7,17 +7,28 @@ LABELS = ['YRI', 'CEU', 'pop 3', 'a b c', 'X', 'deme_6']
 
 @st.composite
 def spectrum_case(draw, min_dim=1, max_dim=3, min_n=1, max_n=8, max_entries=4000, masks=True, folded=None,
-                  labels=True, values='counts', total_budget=None):
+                  labels=True, values='counts', total_budget=None, long_axis=0):
     """A spectrum description: shape (=sample sizes+1), flat data, flat mask, folded flag, pop_ids.
     The data of a 'folded' case are unfolded data to be folded by the reference implementation."""
     nd = draw(st.integers(min_dim, max_dim))
     ns = []
     entries = 1
-    for _ in range(nd):
-        cap = max(min_n, min(max_n, int(max_entries // entries) - 1))
-        n = draw(st.integers(min_n, cap))
-        ns.append(n)
-        entries *= (n + 1)
+    if long_axis and draw(st.integers(0, 99)) < long_axis:
+        # one axis with a large sample size (hundreds of chromosomes are routine; sizes around 2^8, 2^15, 2^16 are where narrow
+        # integer types wrap), the other axes small
+        nd = min(nd, 3)
+        big = draw(st.sampled_from([254, 255, 256, 257, 300, 511, 32767, 32768, 65535, 65536, 70000]))
+        where = draw(st.integers(0, nd - 1))
+        ns = [big if i == where else draw(st.integers(1, 2 if big < 1000 else 1)) for i in range(nd)]
+        if big > 1000 and nd == 3:
+            nd, ns = 2, ns[:2] if where < 2 else ns[1:]
+        entries = int(np.prod([n + 1 for n in ns]))
+    else:
+        for _ in range(nd):
+            cap = max(min_n, min(max_n, int(max_entries // entries) - 1))
+            n = draw(st.integers(min_n, cap))
+            ns.append(n)
+            entries *= (n + 1)
     shape = [n + 1 for n in ns]
     if entries <= 24:
         if values == 'counts':
